@@ -124,6 +124,10 @@ class FileResolver:
                 filepath = current / filename
                 if not self._include_spec.match_file(filename):
                     continue
+                # Traversal never goes through a symbolic link: os.walk does not descend into
+                # linked directories, and linked files (which may point anywhere) are skipped.
+                if filepath.is_symlink():
+                    continue
                 if self._exceeds_max_size(filepath):
                     continue
                 if self._is_gitignored(resolved_current / filename, False, gitignore_specs):
